@@ -164,9 +164,27 @@ func c03ForEach(w *fw.W, fn func(family string, cs *world.Case, ans int, label s
 				continue
 			}
 			for _, seeded := range []bool{false, true} {
-				cs := gen.StdCase(f, gen.BuildBytes(raw, seeded), "call", 100000)
+				code := gen.BuildBytes(raw, seeded)
+				cs := gen.StdCase(f, code, "call", 100000)
 				cs.Note = fmt.Sprintf("BYTES %x seeded=%v", raw, seeded)
 				fn("BYTES", cs, 0, "bytes", nil)
+				if !gen.HasArtelaOp(code) {
+					continue
+				}
+				// programs with a journal opcode: every entry point, values, and gas limits around the flat fee
+				for _, e := range []string{"callcode", "delegatecall", "staticcall", "create", "create2"} {
+					for _, gas := range []uint64{100000, 830, 799, 21} {
+						cs := gen.StdCase(f, code, e, gas)
+						if e == "create" || e == "create2" {
+							cs.Input, cs.Salt = code, 3
+						}
+						if e == "callcode" || e == "create" {
+							cs.Value = world.Big(1)
+						}
+						cs.Note = fmt.Sprintf("BYTES %x seeded=%v entry=%s gas=%d", raw, seeded, e, gas)
+						fn("BYTES", cs, 0, "bytes", nil)
+					}
+				}
 			}
 		}
 	}
@@ -248,7 +266,7 @@ func init() {
 				if sig != "" {
 					for i := 0; i < 4; i++ {
 						if s2, _, _ := c03Exec(cs, ans, label); s2 != sig {
-							w.Notes = append(w.Notes, "HARNESS ERROR: C03 violation did not reproduce: "+cs.Note)
+							w.Notes = append(w.Notes, "UNREPRODUCED: C03 violation did not reproduce: "+cs.Note)
 							return
 						}
 					}
